@@ -39,6 +39,7 @@ void clear_pv_list(Info* info)
 {
     ASSERT(info != nullptr);
     info->_pv_list_length = 0;
+    VERIF_EVENT(verif::EV_PV_CLEAR, info->_ply);
 }
 
 void set_new_pv_list(Info* info, Move move)
@@ -46,6 +47,7 @@ void set_new_pv_list(Info* info, Move move)
     ASSERT(info != nullptr);
     info->_pv_list_length = 1;
     info->_pv_list[0] = move;
+    VERIF_EVENT(verif::EV_PV_SET, info->_ply, move);
 }
 
 void add_new_move_to_pv_list(Info* destInfo, Move move, Info* srcInfo)
@@ -58,6 +60,7 @@ void add_new_move_to_pv_list(Info* destInfo, Move move, Info* srcInfo)
     destInfo->_pv_list[0] = move;
     std::memcpy(destInfo->_pv_list.data() + 1, srcInfo->_pv_list.data(),
                 len * sizeof(Move));
+    VERIF_EVENT(verif::EV_PV_ADD, destInfo->_ply, move);
 }
 
 void add_bonus(int* v, int b)
@@ -178,7 +181,9 @@ void Search::stop()
 
 void Search::go()
 {
+    VERIF_SCHED(verif::SP_GO_ENTRY);
     init_search();
+    VERIF_SCHED(verif::SP_AFTER_INIT);
     // stop_search is initialised by the constructor; resetting it here would lose a stop()
     // that arrives between the construction of the search and the start of its thread
     _start_time = std::chrono::steady_clock::now();
@@ -191,6 +196,8 @@ void Search::go()
     iter_search();
 
     ASSERT(_best_move != NO_MOVE);
+    VERIF_SCHED(verif::SP_BEFORE_BESTMOVE);
+    VERIF_EVENT(verif::EV_BESTMOVE, 0, _best_move);
     sync_cout << "bestmove " << _position.uci(_best_move) << sync_endl;
 }
 
@@ -262,6 +269,7 @@ void Search::iter_search()
     while (!stop_search)
     {
         _current_depth++;
+        VERIF_EVENT(verif::EV_ITER_START, 0, _current_depth);
 
         _stats = SearchStats{};
 
@@ -277,6 +285,7 @@ void Search::iter_search()
         while (true)
         {
             ASSERT(min_bound < max_bound);
+            VERIF_EVENT(verif::EV_ASPIRATION, 0, min_bound, max_bound);
             LOG_DEBUG("Search depth=%d bound=[%ld, %ld] delta=%ld\n",
                       _current_depth, min_bound, max_bound, delta);
             result = search(_position, _current_depth, min_bound, max_bound,
@@ -316,7 +325,10 @@ void Search::iter_search()
             ASSERT(realInfo->_pv_list_length > 0);
             print_info(result, _current_depth, elapsed, realInfo);
             _best_move = realInfo->_pv_list[0];
+            VERIF_EVENT(verif::EV_ITER_DONE, 0, _current_depth, result);
+            VERIF_EVENT(verif::EV_BEST_SET, 0, _best_move);
         }
+        VERIF_SCHED(verif::SP_ITER_END);
         previous_moves[_current_depth] = _best_move;
 
         if (is_mate(result)) break;
@@ -328,6 +340,7 @@ void Search::iter_search()
 
     // no iteration was completed (stopped or out of time at once): still answer with a root move
     if (_best_move == NO_MOVE && !_root_moves.empty()) _best_move = _root_moves.front();
+    VERIF_EVENT(verif::EV_BEST_SET, 0, _best_move);
 }
 
 Value Search::search(Position& position, Depth depth, Value alpha, Value beta,
@@ -336,6 +349,8 @@ Value Search::search(Position& position, Depth depth, Value alpha, Value beta,
     ASSERT(alpha < beta);
 
     info->_ply = (info - 1)->_ply + 1;
+    VERIF_SCHED(verif::SP_VISIT);
+    VERIF_EVENT(verif::EV_NODE_ENTER, info->_ply, depth, 0);
     clear_pv_list(info);
 
     const bool ROOT_NODE = info->_ply == 0;
@@ -348,6 +363,7 @@ Value Search::search(Position& position, Depth depth, Value alpha, Value beta,
     if (stop_search || check_limits())
     {
         stop_search = true;
+        VERIF_EVENT(verif::EV_STOP_SEEN, info->_ply);
         EXIT_SEARCH(Value(0));
     }
 
@@ -359,6 +375,7 @@ Value Search::search(Position& position, Depth depth, Value alpha, Value beta,
     Move* end = ROOT_NODE ? &(*_root_moves.end())
                           : generate_moves(position, position.color(), begin);
     const int n_moves = end - begin;
+    VERIF_EVENT(verif::EV_MOVES, info->_ply, reinterpret_cast<int64_t>(begin), n_moves);
 
     bool is_in_check = position.is_in_check(position.color());
     if (is_in_check) depth++;
@@ -396,6 +413,7 @@ Value Search::search(Position& position, Depth depth, Value alpha, Value beta,
         (std::find(begin, end, entryPtr->value.move) != end))
     {
         _stats.tb_hits++;
+        VERIF_EVENT(verif::EV_TT_CUT, info->_ply, entryPtr->value.move, static_cast<int64_t>(entryPtr->value.flag));
         LOG_DEBUG("[%d] CACHE HIT score=%ld depth=%d flag=%d move=%s",
                   info->_ply, entryPtr->value.score, entryPtr->value.depth,
                   static_cast<int>(entryPtr->value.flag),
@@ -457,12 +475,14 @@ Value Search::search(Position& position, Depth depth, Value alpha, Value beta,
         LOG_DEBUG("[%d] DO MOVE nullmove alpha=%ld beta=%ld", info->_ply, alpha,
                   beta);
         MoveInfo moveinfo = position.do_null_move();
+        VERIF_EVENT(verif::EV_NULL_DO, info->_ply);
         info->_current_move = NO_MOVE;  // this means that this was a null move
         info->_counter_move = &_counter_move_table[NO_PIECE][0];  // trash
         Value result =
             -search(position, reducedDepth, -beta, -beta + 1, info + 1);
         LOG_DEBUG("[%d] UNDO MOVE nullmove", info->_ply);
         position.undo_null_move(moveinfo);
+        VERIF_EVENT(verif::EV_NULL_UNDO, info->_ply);
 
         if (result >= beta && depth < 14)
         {
@@ -515,6 +535,7 @@ Value Search::search(Position& position, Depth depth, Value alpha, Value beta,
         LOG_DEBUG("[%d] DO MOVE %s alpha=%ld beta=%ld", info->_ply,
                   position.uci(move).c_str(), alpha, beta);
         const MoveInfo moveinfo = position.do_move(move);
+        VERIF_EVENT(verif::EV_DO, info->_ply, move);
 
         info->_current_move = move;
         info->_counter_move =
@@ -562,6 +583,7 @@ Value Search::search(Position& position, Depth depth, Value alpha, Value beta,
         }
 
         position.undo_move(move, moveinfo);
+        VERIF_EVENT(verif::EV_UNDO, info->_ply, move);
         LOG_DEBUG("[%d] UNDO MOVE %s", info->_ply,
                   position.uci(move).c_str());
 
@@ -658,6 +680,8 @@ Value Search::quiescence_search(Position& position, Depth depth, Value alpha,
     ASSERT(alpha < beta);
 
     info->_ply = (info - 1)->_ply + 1;
+    VERIF_SCHED(verif::SP_VISIT);
+    VERIF_EVENT(verif::EV_NODE_ENTER, info->_ply, depth, 1);
     clear_pv_list(info);
 
     const bool PV_NODE = beta != alpha + 1;
@@ -668,6 +692,7 @@ Value Search::quiescence_search(Position& position, Depth depth, Value alpha,
     if (stop_search || check_limits())
     {
         stop_search = true;
+        VERIF_EVENT(verif::EV_STOP_SEEN, info->_ply);
         EXIT_QSEARCH(Value(0));
     }
 
@@ -703,6 +728,7 @@ Value Search::quiescence_search(Position& position, Depth depth, Value alpha,
     Move* begin = MOVE_LIST[info->_ply];
     Move* end = generate_moves(position, position.color(), begin);
     const int n_moves = end - begin;
+    VERIF_EVENT(verif::EV_MOVES, info->_ply, reinterpret_cast<int64_t>(begin), n_moves);
 
     if (n_moves == 0) EXIT_QSEARCH(is_in_check ? lost_in(0) : VALUE_DRAW);
 
@@ -723,6 +749,7 @@ Value Search::quiescence_search(Position& position, Depth depth, Value alpha,
         LOG_DEBUG("[%d] DO MOVE %s alpha=%ld beta=%ld", info->_ply,
                   position.uci(move).c_str(), alpha, beta);
         MoveInfo moveinfo = position.do_move(move);
+        VERIF_EVENT(verif::EV_DO, info->_ply, move);
 
         Value result = -quiescence_search(position, depth - 1, -(alpha + 1),
                                           -alpha, info + 1);
@@ -733,6 +760,7 @@ Value Search::quiescence_search(Position& position, Depth depth, Value alpha,
         }
 
         position.undo_move(move, moveinfo);
+        VERIF_EVENT(verif::EV_UNDO, info->_ply, move);
         LOG_DEBUG("[%d] UNDO MOVE %s", info->_ply,
                   position.uci(move).c_str());
 
